@@ -149,9 +149,10 @@ class Agent:
     def derive(alg, ktype, key, engine_id):
         if ktype == "password":
             return usm.localize(alg, usm.password_to_key(alg, key), engine_id)
+        # master / localized keys shorter than the digest count as padded with trailing zeros
         if ktype == "master":
-            return usm.localize(alg, key, engine_id)
-        return key
+            return usm.localize(alg, (key + b"\0" * 64)[: usm.KEYLEN[alg]], engine_id)
+        return (key + b"\0" * 64)[: usm.KEYLEN[alg]]
 
     def rekey(self):
         for name, u in list(self.users.items()):
